@@ -31,7 +31,9 @@ def check(ctx, R):
         _nd_own(ctx, R, roles, T)
         _exc(ctx, R, roles)
         _raise_sites(ctx, R, roles)
-        from .c08 import _pull as pull_rules, buffer_access
+        from .c08 import _pull as pull_rules, buffer_access, record_reader, buffered_reader
+        record_reader(ctx, R, roles, T)   # "carrying the device's message": the FAIL record's payload is what the record reader returns
+        buffered_reader(ctx, R, roles, T)
         pull_rules(ctx, R, roles, T)      # pull must read on until the device's terminating record (DONE or FAIL), whatever was received so far
         buffer_access(ctx, R, roles)
     R.assume("the pump discards packets of the caller's own stream whose command is not in `expected` (asserted by the unit tests); hence awaiting sites must list every command that matters")
